@@ -414,6 +414,18 @@ def w_jumps(arg):
     from vf.common import repo_on_path; repo_on_path()
     import warnings; warnings.filterwarnings('ignore')
     from vf.rtc import catalogue
+    if idx == 'close-pairs':
+        # curated: atoms of the jumping species much closer to each other than the cell size (first-shell cutoff far below one cell)
+        # and an obstruction distance of order the cell: the obstructing images sit in cells that contain no jump end point
+        from onsager import crystal as _cr
+        # (only an image two cells away has its foot on the short jump between the two A atoms: nearer images project outside the segment)
+        c = _cr.Crystal(np.array([[1., 0.], [0.275, 1.]]).T, [[np.array([0., 0.]), np.array([0.15, 0.])], [np.array([0.5, 0.5])]], chemistry=['A', 'B'])
+        acc = Acc('close-pairs-2D')
+        cutoff = catalogue.shell_cutoff(c, 0, 1)
+        for cd in (2.6, [0.0, 2.55], 2.4):
+            jump_contract(acc, c, 'close-pairs-2D', 0, cutoff, cd, 'chem 0 cutoff %.4f closest %r' % (cutoff, cd))
+        acc.sample = {'crystal': 'close-pairs-2D', 'checked': 'obstruction distance larger than the cutoff and comparable to the cell'}
+        return acc.result()
     cid, f = catalogue.builders(tier, seed)[idx]
     e = f(); c = e['crys']; acc = Acc(cid)
     rng = np.random.default_rng(seed * 11 + idx)
@@ -427,6 +439,10 @@ def w_jumps(arg):
                 # obstruction distances midway between the distinct perpendicular distances of other atoms to the jump segments
                 ds = sorted(set(np.round(perp_distances(c, chem, cutoff), 5)))
                 mids = [0.5 * (a + b) for a, b in zip(ds, ds[1:]) if b - a > 1e-3][:2] or ([ds[0] * 0.5] if ds else [])
+                if nshell == 1 and cutoff < 0.8 * min(np.linalg.norm(c.lattice, axis=0)):
+                    # an obstruction distance of two cell lengths (larger than the cutoff): obstructing atoms sit in cells that hold no jump end point
+                    big = 2.1 * min(np.linalg.norm(c.lattice, axis=0))
+                    jump_contract(acc, c, cid, chem, cutoff, big, 'chem %d cutoff %.4f closest %.4f (cell-sized)' % (chem, cutoff, big))
                 for cd in mids:
                     jump_contract(acc, c, cid, chem, cutoff, cd, 'chem %d cutoff %.4f closest %.4f' % (chem, cutoff, cd))
                     per = [cd * (1.3 if k % 2 else 0.6) for k in range(len(c.basis))]
